@@ -55,6 +55,10 @@ func (m *Machine) Run(t *rapid.T, weights map[string]int, minSteps, maxSteps int
 	check("init")
 	for i := 0; i < steps; i++ {
 		name := rapid.SampledFrom(names).Draw(t, "op")
+		m.nextFate = Commit
+		if m.ExtraFates[name] {
+			m.nextFate = fate()
+		}
 		ops[name]()
 		m.checkLockedMemory(name)
 		check(name)
